@@ -576,6 +576,47 @@ vbi_draw_cc_page_region(vbi_page *pg,
 	}
 }
 
+static inline vbi_bool
+is_wide_size			(vbi_size		size)
+{
+	return (VBI_DOUBLE_WIDTH == size
+		|| VBI_DOUBLE_SIZE == size
+		|| VBI_DOUBLE_SIZE2 == size);
+}
+
+static void
+draw_vt_cell			(vbi_page *		pg,
+				 vbi_char *		ac,
+				 int			canvas_type,
+				 uint8_t *		canvas,
+				 int			rowstride,
+				 uint8_t *		pen,
+				 int			unicode,
+				 vbi_size		size)
+{
+	if (vbi_is_drcs (unicode)) {
+		uint8_t *font = pg->drcs[(unicode >> 6) & 0x1F];
+
+		if (font)
+			draw_drcs (canvas_type, canvas, rowstride,
+				   pen, ac->drcs_clut_offs,
+				   font, unicode & 0x3F, size);
+		else /* shouldn't happen */
+			draw_blank (canvas_type, canvas, rowstride,
+				    ((canvas_type == 1) ?
+				     pen[0] : ((vbi_rgba *) pen)[0]),
+				    TCW, TCH);
+	} else {
+		draw_char (canvas_type, canvas, rowstride,
+			   pen, (uint8_t *) wstfont2_bits,
+			   TCPL, TCW, TCH,
+			   unicode_wstfont2 (unicode, ac->italic),
+			   ac->bold,
+			   ac->underline << 9 /* cell row 9 */,
+			   size);
+	}
+}
+
 /**
  * @param pg Source page.
  * @param fmt Target format. For now only VBI_PIXFMT_RGBA32_LE (vbi_rgba) and
@@ -653,6 +694,8 @@ vbi_draw_vt_page_region(vbi_page *pg,
 		ac = &pg->text[row * pg->columns + column];
 
 		for (count = width; count > 0; count--, ac++) {
+			vbi_size size = ac->size;
+
 			if ((ac->conceal & conceal) || (ac->flash & off))
 				unicode = 0x0020;
 			else
@@ -666,34 +709,47 @@ vbi_draw_vt_page_region(vbi_page *pg,
                                 pen.rgba[1] = pg->color_map[ac->foreground];
                         }
 
-			switch (ac->size) {
+			switch (size) {
 			case VBI_OVER_TOP:
 			case VBI_OVER_BOTTOM:
-				break;
+				/* Right half of a double width character,
+				   drawn together with the left half. */
+				if (count < width && is_wide_size (ac[-1].size))
+					break;
+
+				/* There is no left half (the region cuts
+				   through the character, or the page is
+				   malformed). Do not leave the cell undrawn. */
+				unicode = 0x0020;
+				size = VBI_NORMAL_SIZE;
+
+				/* fall through */
 
 			default:
-				if (vbi_is_drcs(unicode)) {
-					uint8_t *font = pg->drcs[(unicode >> 6) & 0x1F];
+				if (1 == count && is_wide_size (size)) {
+					/* The right half would fall outside
+					   of the region. Draw into a scratch
+					   buffer and copy the left half. */
+					uint8_t scratch[TCH][2 * TCW * 4];
+					int scratch_stride = 2 * TCW * canvas_type;
+					int y;
 
-					if (font)
-						draw_drcs(canvas_type, canvas, rowstride,
-							  (uint8_t *) &pen, ac->drcs_clut_offs,
-							  font, unicode & 0x3F, ac->size);
-					else /* shouldn't happen */
-						draw_blank(canvas_type, canvas, rowstride,
-							   ((canvas_type == 1) ? pen.pal8[0]: pen.rgba[0]),
-                                                           TCW, TCH);
+					draw_vt_cell (pg, ac, canvas_type,
+						      scratch[0], scratch_stride,
+						      (uint8_t *) &pen,
+						      unicode, size);
+
+					for (y = 0; y < TCH; ++y)
+						memcpy ((uint8_t *) canvas
+							+ y * rowstride,
+							(uint8_t *) scratch
+							+ y * scratch_stride,
+							TCW * canvas_type);
 				} else {
-					draw_char (canvas_type,
-						   canvas,
-						   rowstride,
-						   (uint8_t *) &pen,
-						   (uint8_t *) wstfont2_bits,
-						   TCPL, TCW, TCH,
-						   unicode_wstfont2 (unicode, ac->italic),
-						   ac->bold,
-						   ac->underline << 9 /* cell row 9 */,
-						   ac->size);
+					draw_vt_cell (pg, ac, canvas_type,
+						      canvas, rowstride,
+						      (uint8_t *) &pen,
+						      unicode, size);
 				}
 			}
 
@@ -1179,16 +1235,50 @@ draw_row_indexed(vbi_page * pg, vbi_char * ac, uint8_t * canvas, uint8_t * pen,
         const int ch = is_cc ? CCH : TCH;
 	void (* draw_char_indexed)(uint8_t *, int, uint8_t *, int, vbi_char *)
                 = is_cc ? draw_char_cc_indexed : draw_char_vt_indexed;
+	vbi_char *row = ac;
 	int column;
         int unicode;
 
-        for (column = 0; column < pg->columns ; canvas += cw, column++, ac++) {
+        for (column = 0; column < pg->columns ; canvas += cw, column++) {
+				vbi_char tmp;
 
-				if (ac->size == VBI_OVER_TOP
-				    || ac->size == VBI_OVER_BOTTOM)
-					continue;
+				ac = row + column;
 
 				unicode = (ac->conceal & conceal) ? 0x0020u : ac->unicode;
+
+				if (VBI_TRANSPARENT_SPACE == ac->opacity) {
+					/* Drawn cell by cell, also the right half
+					   of double width characters. */
+					draw_blank(sizeof(*canvas), canvas, rowstride,
+						   VBI_TRANSPARENT_BLACK, cw, ch);
+					continue;
+				}
+
+				if (ac->size == VBI_OVER_TOP
+				    || ac->size == VBI_OVER_BOTTOM) {
+					/* Right half of a double width character,
+					   drawn together with the left half. */
+					if (column > 0
+					    && is_wide_size (ac[-1].size)
+					    && VBI_TRANSPARENT_SPACE != ac[-1].opacity)
+						continue;
+
+					/* No left half, malformed page. Do not
+					   leave the cell undrawn. */
+					tmp = *ac;
+					tmp.size = VBI_NORMAL_SIZE;
+					ac = &tmp;
+					unicode = 0x0020u;
+				} else if (column == pg->columns - 1
+					   && is_wide_size (ac->size)) {
+					/* No room for the right half. */
+					tmp = *ac;
+					tmp.size = (VBI_DOUBLE_WIDTH == ac->size) ?
+						VBI_NORMAL_SIZE :
+						(VBI_DOUBLE_SIZE == ac->size) ?
+						VBI_DOUBLE_HEIGHT : VBI_DOUBLE_HEIGHT2;
+					ac = &tmp;
+				}
 
 				switch (ac->opacity) {
 				case VBI_TRANSPARENT_SPACE:
